@@ -129,6 +129,7 @@ class Explorer(object):
         self.notes = []
         self.seen_obl = set()
         self.keepalive = []
+        self.used = set()          # contract keys of every callee met during exploration
 
     def run(self, body):
         while self.stack:
